@@ -36,7 +36,7 @@ Section C07.
   (* async_device RX1 / RX2: a window that hears a rejected frame is a window that timed out -- same device, same calls, same outcome *)
   Theorem C07_async_window_rejected_frame_is_timeout : forall d e rf f rest,
     mac_rejects enc mac_fn (ad_mac d) (firstn 256 f) (rf_max_payload rf) ->
-    e_fault e <> Some (e_calls e) ->
+    faulty e = false ->
     rx_listen enc mac_fn d (with_script e (SvX f :: rest)) rf = rx_listen enc mac_fn d (with_script e (SvT :: rest)) rf.
   Proof. exact (async_window_rejected_frame_is_timeout enc mac_fn). Qed.
 
